@@ -38,7 +38,7 @@ claims = {
  "C05": dict(level="proof",
    text=("Raw in-child mount sequence (forkAndExecInChild, model K): loop invariant over all mount entries (each mounted with exactly its source/target/type/flags/data; bind-read-only entries remounted with at least their own flags plus REMOUNT), "
          "pivot_root -> detach old root -> remove it -> read-only remount of / required at exec whenever a pivot root is configured; bit-level facts proved as bv lemmas. "),
-   note=TRUST + "kernel models K (raw child) and M (package syscall mounts); precondition: mount targets are distinct pointers. Container side: mount.Mount.Mount (each configured mount issued with exactly its own arguments; read-only binds remounted on the same target with at least their own flags plus MS_REMOUNT), container initFileSystem (root tmpfs -> chdir -> all configured mounts -> pivot_root(ContainerRoot) -> lazy unmount and removal of exactly the old root -> symlinks and masks only after pivot+detach -> nil only if the last remount of / was read-only), maskPath. initContainer/handleConf are not under contract, so initFileSystem is proved under its own precondition (fresh mount state); mount.Builder.WithBind/WithTmpfs/WithProcRW are under contract (a bind declared read-only carries MS_BIND|MS_RDONLY, every bind is nosuid, tmpfs nosuid|nodev, proc nosuid|nodev|noexec and read-only unless asked); Mount.ToSyscall and Builder.Build marshal exactly the configured source/target/type/flags/data into the raw parameters the child's mount loop uses (cstr abstraction of BytePtrFromString); FilterNotExist is not under contract. That these mounts make the host unreachable is kernel behaviour.",
+   note=TRUST + "kernel models K (raw child) and M (package syscall mounts); precondition: mount targets are distinct pointers. Container side: mount.Mount.Mount (each configured mount issued with exactly its own arguments; read-only binds remounted on the same target with at least their own flags plus MS_REMOUNT), container initFileSystem (root tmpfs -> chdir -> all configured mounts -> pivot_root(ContainerRoot) -> lazy unmount and removal of exactly the old root -> symlinks and masks only after pivot+detach -> nil only if the last remount of / was read-only), maskPath. handleConf and initContainer are under contract: a configuration command is answered with success only after the whole sequence ran on exactly the configuration that arrived (pivoted into its root, old root detached, root sealed read-only), and the host-configured init command runs only inside the sealed root; the fresh mount state at that moment is the listed rely A-CONF on the host (it configures a container once, first, with remount-free flags); mount.Builder.WithBind/WithTmpfs/WithProcRW are under contract (a bind declared read-only carries MS_BIND|MS_RDONLY, every bind is nosuid, tmpfs nosuid|nodev, proc nosuid|nodev|noexec and read-only unless asked); Mount.ToSyscall and Builder.Build marshal exactly the configured source/target/type/flags/data into the raw parameters the child's mount loop uses (cstr abstraction of BytePtrFromString); NewDefaultBuilder (the default root is four read-only nosuid binds of /usr, /lib, /lib64, /bin), WithProc (read-only), WithMount, and FilterNotExist (in-place compaction: every kept entry is one of the given entries, unchanged, quantified loop invariant with a witness) are under contract; every With* method leaves the earlier entries as they were. That these mounts make the host unreachable is kernel behaviour.",
    design_ref="DESIGN.md §4 C05"),
  "C06": dict(level="proof",
    text=("Descriptor shuffle of forkAndExecInChild proved with quantified loop invariants over the ghost descriptor table for all lists (length, order, repeats, close markers, overlaps with the scratch area and with the sync/exec descriptors): "
@@ -51,9 +51,9 @@ claims = {
    note=TRUST + "kernel model K (child) and parent-side model of Kill/Wait4/Close/Socketpair. Parent side: syncWithChild/Start invoke the callback at most once, only after the ready word was read and before the ack is written, with the pid fork returned; on a callback error or a child-reported error handleChildFailed kills and reaps that pid before returning a non-nil error. ASSUMED (A-K4): reads on the sync socket return 0, 8 or 24 bytes (readChildErr abstracts). Container handleExecve$1 (syncPid relay) is under contract for the protocol state only; that the relayed pid is the host-side pid is kernel behaviour (SCM_CREDENTIALS).",
    design_ref="DESIGN.md §4 C07"),
  "C08": dict(level="proof",
-   text=("PrepareRLimit: length and CPU/CORE entries exact for all records (CPU hard limit never below the soft one); the rlimit loop of forkAndExecInChild issues prlimit64(0, Res_k, {Cur_k, Max_k}, NULL) with exactly the k-th listed entry's resource and soft/hard values (call-site obligation), every entry up to the loop index has been set (invariant), and a failure ends the child with the entry's index (model K); ptracer.checkUsage: time = utime in ns, memory = maxrss*1024, MLE over TLE over Normal for all 64-bit values; "
+   text=("PrepareRLimit: the complete table for all records - length, and for each of CPU, DATA, FSIZE, STACK, AS, NOFILE, CORE the entry sits at the index given by the number of configured resources before it, with its own resource number and soft/hard values (CPU hard limit never below the soft one); the rlimit loop of forkAndExecInChild issues prlimit64(0, Res_k, {Cur_k, Max_k}, NULL) with exactly the k-th listed entry's resource and soft/hard values (call-site obligation), every entry up to the loop index has been set (invariant), and a failure ends the child with the entry's index (model K); ptracer.checkUsage: time = utime in ns, memory = maxrss*1024, MLE over TLE over Normal for all 64-bit values; "
          "output collector (pipe.NewBuffer/NewPipe and its copy goroutine, model C): the cap handed to the copy is max+1, at most that many bytes reach the buffer, the rest of the stream is drained to EOF unconditionally and only then is the read end closed."),
-   note=TRUST + "positions/values of the DATA..NOFILE entries of PrepareRLimit are not stated as proof obligations (seven conditional appends time out); they are covered by the bounded stand-in C08/rlimit (156250 records, labelled bounded, not counted as proved). io.CopyN/io.Copy are modelled, not verified; that draining prevents SIGPIPE/blocking is kernel pipe behaviour.",
+   note=TRUST + "the bounded stand-in C08/rlimit (156250 records, labelled bounded, not counted as proved) is kept as an independent cross-check of the PrepareRLimit table, which is now proved in full. io.CopyN/io.Copy are modelled, not verified; that draining prevents SIGPIPE/blocking is kernel pipe behaviour.",
    design_ref="DESIGN.md §4 C08"),
  "C09": dict(level="proof",
    text=("For all 2^32 wait words: container.convertReply and ptracer handle/trace equal the README status table (main process); an exit or fatal signal of a secondary process leaves the run going with status Normal; "
@@ -80,7 +80,7 @@ claims = {
    design_ref="DESIGN.md §4 C14"),
  "C12": dict(level="proof",
    text=("Partial. Processes: the deferred clean-up of Tracer.trace issues kill(-pgid, SIGKILL) and then reaps until wait4 fails, on every return path; forkexec Start/syncWithChild/handleChildFailed kill and reap the child on every failing path (parent-side model). "
-         "Descriptors: forkexec Start closes both ends of the sync socketpair on every path; container handleOpen/handleExecve close every file they opened after sending (closeFds over all entries) and on every error path; host Open closes all received descriptors when it fails part-way (Open$1). *os.File ownership (ghost FC): every file queued with a reply is closed by the container's send loop after the send, whether or not it succeeded, or closed directly when the transport is already lost (sendReplyFiles, sendLoop); NewSocket closes the os.File wrapper it creates; DupToMemfd closes its memfd on every failure; the output collector closes its read end; the id-map writer closes its descriptor on every path."),
+         "Descriptors: forkexec Start closes both ends of the sync socketpair on every path; container handleOpen/handleExecve close every file they opened after sending (closeFds over all entries) and on every error path; host Open closes all received descriptors when it fails part-way (Open$1). *os.File ownership (ghost FC): every file queued with a reply is closed by the container's send loop after the send, whether or not it succeeded, or closed directly when the transport is already lost (sendReplyFiles, sendLoop); NewSocket closes the os.File wrapper it creates; DupToMemfd closes its memfd on every failure; the output collector closes its read end; the id-map writer closes its descriptor on every path. Host Builder.Build: whenever it fails after the container init was started, that init has been killed and reaped before the error is returned (quantified over every process started by the call; found and fixed: two failure paths returned without destroying it)."),
    note=TRUST + "unshare.Run's deferred clean-up likewise kills the group and reaps (Run$2). Goroutine counts are not under contract; unixsocket RecvMsg descriptor ownership is C19 (not claimed); that everything is dead afterwards is kernel behaviour.",
    design_ref="DESIGN.md §4 C12"),
  "C15": dict(level="proof",
@@ -101,7 +101,7 @@ claims = {
    text=("Partial (ownership and pid writes; model G: directory creation under interference, where only a single mkdir is atomic): EnsureDirExists returns nil only if this very call created the directory (found and fixed: stat followed by MkdirAll told several concurrent creators that each had created the group); "
          "V2.New marks a handle as not-existing only if its own mkdir created the directory; V2.Destroy and V1.Destroy issue rmdir for the group's directories only through a handle that is not marked existing, and for every controller directory of such a handle; "
          "AddProcesses issues one write per pid carrying exactly that pid's decimal text; Existing() returns the flag."),
-   note=TRUST + "Units table (which control file, which scaling) for v1 and v2: CPU time = usage_usec of cpu.stat x 1000 (v2) / cpuacct.usage (v1), memory = memory.current, memory.peak (v2) / memory.usage_in_bytes, memory.max_usage_in_bytes (v1), process count = pids.peak, limits go to memory.max / pids.max (v2) and memory.limit_in_bytes / pids.max (v1) with the given value - over abstract file contents (cgval) and a ghost record of the last number written; Random returns only a group it created (found and fixed: the retry on an existing group was unreachable). Two known findings: on v1 a limit call on a group whose controller was never set up returns nil without writing. NOT decided: the text parsing itself (Scanner/Fields/ParseUint are assumed), SetCPUBandwidth's formatted content, newV1/newV2/V1.New builders; that writing a pid moves exactly that process is kernel behaviour. 'Distinct group nested under its parent even when created concurrently' is proved only as the mkdir-atomicity consequence above.",
+   note=TRUST + "Units table (which control file, which scaling) for v1 and v2: CPU time = usage_usec of cpu.stat x 1000 (v2) / cpuacct.usage (v1), memory = memory.current, memory.peak (v2) / memory.usage_in_bytes, memory.max_usage_in_bytes (v1), process count = pids.peak, limits go to memory.max / pids.max (v2) and memory.limit_in_bytes / pids.max (v1) with the given value - over abstract file contents (cgval) and a ghost record of the last number written; Random returns only a group it created (found and fixed: the retry on an existing group was unreachable). Two known findings: on v1 a limit call on a group whose controller was never set up returns nil without writing. CPU bandwidth: v1 writes cpu.cfs_quota_us then cpu.cfs_period_us of the cpu controller, each with the value given (ghost record of the last two writes); v2 writes \"<quota> <period>\" to cpu.max in one write and refuses without the controller; cpuset writes carry the bytes given to the documented file; newV1's per-controller step lists in `all` only a directory this call created (a pre-existing one is never listed, so never removed); OpenExisting on v1 returns a handle marked existing (found and fixed: it returned nil). NOT decided: the text parsing itself (Scanner/Fields/ParseUint are assumed), loopV1Controllers/newV1 wiring around the verified callback, newV2, FindMemoryStatProperty; that writing a pid moves exactly that process is kernel behaviour. 'Distinct group nested under its parent even when created concurrently' is proved only as the mkdir-atomicity consequence above.",
    design_ref="DESIGN.md §10.2"),
  "C18": dict(level="proof",
    text=("CheckRead/CheckWrite/CheckStat cascade (write => read => stat) and refusal => ban iff soft-ban covers else kill, over an abstract cover predicate; SyscallCounter.Check step contract; budget lemmas over histories; termination and memory safety of the matcher. "
